@@ -512,6 +512,7 @@ func opInit(enableTypes []string, heights map[string]int64) {
 	cfg := &crypto.Config{EnableTypes: enableTypes, EnableHeight: heights}
 	sub := map[string][]byte{"secp256k1eth": []byte("{}")}
 	res := gen.Guard(func() string { crypto.Init(cfg, sub); return "ok" })
+	txw.ApplyInit(enableTypes, heights)
 	ts := "-"
 	if len(enableTypes) > 0 {
 		ts = strings.Join(enableTypes, ",")
@@ -555,7 +556,7 @@ func opCheckSign(h int64, tx *types.Transaction, label string) bool {
 	}
 	switch {
 	case label == "honest":
-		en := h >= 0 && txw.LoadRes(name, h) == "ok"
+		en := h >= 0 && txw.ExpectEnabled(name, h)
 		if h >= 0 && en && !ok {
 			out.Pred("C16|"+name+".CheckSign|honest-signature-rejected-while-enabled", fmt.Sprintf("h=%d %s", h, txw.Tok(tx)))
 		}
@@ -805,6 +806,11 @@ func phaseSign(r *gen.Rand, signers []txw.Signer, reg map[string]txw.DrvInfo, pe
 			tx.Signature = nil
 			opCheckSign(int64(r.Intn(100)), tx, "unsigned")
 			addrID := int32(r.Intn(8))
+			if r.Chance(1, 3) {
+				// re-signing: Sign must not sign over a stale signature field
+				tx.Signature = &types.Signature{Ty: txw.EdgeInt32(r), Pubkey: txw.RandBytes(r, 40), Signature: txw.RandBytes(r, 80)}
+				out.Stat("signed_over_stale_signature", 1)
+			}
 			signWith(s, key, tx, addrID)
 			out.Stat(fmt.Sprintf("signed_%s_addrid%d", s.Name, addrID), 1)
 			opTx(tx)
@@ -1087,6 +1093,12 @@ func main() {
 	phaseMutate(r, gen.Scale(250, 4000))
 
 	ds := txw.EmitRegistry(out)
+	// expected state = the documented registration defaults: every driver enabled from height 0,
+	// except those registered with WithRegOptionDefaultDisable ("none")
+	txw.Expected = map[string]txw.DrvInfo{}
+	for _, d := range ds {
+		txw.Expected[d.Name] = txw.DrvInfo{Name: d.Name, ID: d.ID, Enable: d.Name != "none", Height: 0}
+	}
 	signers := txw.Signers()
 	var sn []string
 	for _, s := range signers {
@@ -1098,7 +1110,7 @@ func main() {
 			opLoad(d.Name, h)
 		}
 	}
-	phaseSign(r, signers, txw.RegMap(ds), gen.Scale(6, 60), true)
+	phaseSign(r, signers, txw.RegMap(ds), gen.Scale(5, 60), true)
 	phaseConfigs(r, signers, ds, gen.Scale(2, 10))
 	phaseSign(r, signers, txw.RegMap(txw.ObserveRegistry()), gen.Scale(2, 20), false)
 }
